@@ -211,6 +211,7 @@ struct World {
 	int reader_cv = 0;
 	unsigned reads_per_wake = 40; // an operator call (stop/add/remove group) is in progress
 	// digests for metamorphic comparison
+	uint64_t digest_until = UINT64_MAX;
 	uint64_t dig_states = 0xcbf29ce484222325ull, dig_sent = 0xcbf29ce484222325ull;
 	World(const J &p, RunCtx &c) : plan(p), ctx(c), chunk(1), lat(1) {}
 	int index_of(const rtr_socket *s) const { return sm.index(s); }
